@@ -79,8 +79,8 @@ def _variant(rng, sub):
         return cirq.CircuitOperation(sub, repetitions=-2, repetition_ids=["a", "b"])  # cannot be carried by the message: must be refused, not altered
     if kind == 3:
         if rng.random() < 0.5:
-            # custom ids that are NOT used for the keys (the flag travels separately from the ids)
-            return cirq.CircuitOperation(sub, repetitions=2, repetition_ids=["a", "b"], use_repetition_ids=False)
+            # ids that are NOT used for the keys (the flag travels separately from the ids), custom or spelled like the default ones
+            return cirq.CircuitOperation(sub, repetitions=2, repetition_ids=rng.choice([["a", "b"], ["0", "1"]]), use_repetition_ids=False)
         return cirq.CircuitOperation(sub, repetitions=3, use_repetition_ids=rng.random() < 0.5)
     if kind == 4:
         return cirq.CircuitOperation(sub, param_resolver={"s": rng.choice([u, 2 * u, u + 0.5, 0.25, 1])})
@@ -143,8 +143,19 @@ def standin_circuit_roundtrip(tier, seed):
             fails.append(dict(args=dict(circuit=repr(c), back=repr(back)[:1500]), failed="circuit-roundtrip", clause="deserialize(serialize(c)) differs from c beyond float32 rounding"))
         if len(fails) >= 3:
             break
-    # tags ON a CircuitOperation (the message has no field for them): one fixed input, reported under its own name
+    # every combination of (ids given / spelled like the default ones / absent) x (ids in use or not) x (measuring body or not)
     q = cirq.GridQubit(1, 1)
+    for body, ids, use in itertools.product((cirq.FrozenCircuit(cirq.X(q) ** 0.5), cirq.FrozenCircuit(cirq.X(q), cirq.measure(q, key="m"))), (None, ["0", "1", "2"], ["a", "b", "c"]), (True, False)):
+        wrapped = cirq.Circuit(cirq.CircuitOperation(body, repetitions=3, repetition_ids=ids, use_repetition_ids=use))
+        cases += 1
+        try:
+            back = ser.deserialize(ser.serialize(wrapped))
+        except Exception as ex:
+            fails.append(dict(args=dict(circuit=repr(wrapped)), failed="circuit-roundtrip-raised", clause=f"{ex!r}"))
+            continue
+        if back != wrapped or cirq.measurement_key_names(back) != cirq.measurement_key_names(wrapped):
+            fails.append(dict(args=dict(circuit=repr(wrapped), back=repr(back)[:1500]), failed="circuit-roundtrip", clause=f"a sub-circuit with repetition_ids={ids}, use_repetition_ids={use} comes back as a different operation"))
+    # tags ON a CircuitOperation (the message has no field for them): one fixed input, reported under its own name
     tagged = cirq.Circuit(cirq.CircuitOperation(cirq.FrozenCircuit(cirq.X(q) ** 0.5)).with_tags("wrapped"))
     cases += 1
     try:
